@@ -90,6 +90,14 @@ pub fn catch<T>(f: impl FnOnce() -> T) -> Result<T, String> {
     })
 }
 
+/// Panics of the code under test are data (caught by `catch`), so nothing is printed when one happens; the
+/// location of the LAST panic is remembered so that a panic escaping the recorder itself can be reported.
+pub static LAST_PANIC: std::sync::Mutex<String> = std::sync::Mutex::new(String::new());
+
 pub fn quiet_panics() {
-    std::panic::set_hook(Box::new(|_| {}));
+    std::panic::set_hook(Box::new(|info| {
+        if let Ok(mut l) = LAST_PANIC.lock() {
+            *l = format!("{info}");
+        }
+    }));
 }
